@@ -467,11 +467,11 @@ class ParserText(ParserBase):
         try:
             value = self._parsable[self._parsed_length:]
             date_time = dateutil.parser.parse(six.ensure_text(value, self._encoding))
-        except ValueError as e:
+            if date_time.tzinfo is None:
+                date_time = date_time.replace(tzinfo=dateutil.tz.UTC)
+            date_time.astimezone(dateutil.tz.UTC)
+        except (ValueError, OverflowError) as e:
             six.raise_from(InvalidValue(value, type(self), 'value'), e)
-
-        if date_time.tzinfo is None:
-            date_time = date_time.replace(tzinfo=dateutil.tz.UTC)
 
         self._parsed_values[name] = date_time
         self._parsed_length = len(self._parsable)
